@@ -101,7 +101,18 @@ func runC12(r *mon.Run, replay string) {
 	n := base + r.Pick(12, 180) // appended: "capsync", "cpahead" and "poolrelay" clusters in turn
 	c12Base.Store(int64(base))
 	workers := r.Pick(12, 12)
-	parallel(n, workers, func(i int) {
+	parallel(n+1, workers, func(i int) {
+		if i == 0 {
+			// the directed cluster of the recorded finding KF-C12-1 (v1 tip one
+			// above a node whose peers are all marked synced): it runs in every
+			// check so that the finding is observed, not merely listed; it starts
+			// first because it waits out the whole convergence window
+			if os.Getenv("VERIF_C12_ONLY") == "" {
+				runCluster(r, 999, "v1gap:1")
+			}
+			return
+		}
+		i--
 		special := c12SpecialFor(i)
 		if only := os.Getenv("VERIF_C12_ONLY"); only != "" && only != special {
 			return // development filter (never set by ./check users)
